@@ -21,7 +21,7 @@ def idCnt (id : Nat) (l : List Obj) : Nat := sumW (fun o => eqInd o.id id) l
 
 /-- ids that leave the pool for good with this event -/
 def Ev.goneIds : Ev → List Nat
-  | .destroy id => [id]
+  | .destroy _ id => [id]
   | .taken _ id => [id]
   | .retained _ _ removed => removed
   | _ => []
